@@ -426,10 +426,21 @@ inline stim::Circuit gen_qec_circuit(Rng &rng, const QecOpts &o, Stats *st = nul
     };
     // heralded channels append one result per target: a fixed number per round so that lookbacks stay aligned
     size_t heralds_per_round = (o.heralded && rng.chance(0.5)) ? 1 : 0;
+    // several targets in one heralded instruction (each target has its own herald result, and the detectors below look at the
+    // herald results one by one, so which herald belongs to which target matters); drawn from a side stream
+    Rng hside = rng.sub(782);
+    if (heralds_per_round && hside.chance(0.6)) heralds_per_round = 2 + hside.below(2);
     auto add_heralded = [&](Circuit &c) {
         uint32_t q = (uint32_t)rng.below(nd);
-        if (rng.chance(0.5)) c.safe_append_u("HERALDED_ERASE", {q}, {prob()});
-        else c.safe_append_u("HERALDED_PAULI_CHANNEL_1", {q}, {prob() / 4, prob() / 4, 0.0, prob() / 4});
+        std::vector<uint32_t> ts = {q};
+        for (size_t j = 1; j < heralds_per_round; j++) ts.push_back((uint32_t)((q + j * (1 + hside.below(2))) % (uint32_t)nd));
+        if (rng.chance(0.5)) c.safe_append_u("HERALDED_ERASE", ts, {prob()});
+        else if (ts.size() > 1 && hside.chance(0.5)) {
+            std::vector<double> a4(4, 0.0);
+            a4[hside.below(4)] = prob();
+            c.safe_append_u("HERALDED_PAULI_CHANNEL_1", ts, a4);
+        } else c.safe_append_u("HERALDED_PAULI_CHANNEL_1", ts, {prob() / 4, prob() / 4, 0.0, prob() / 4});
+        if (ts.size() > 1 && st) st->hit("qec.heralded.multi_target");
     };
     int style = (int)rng.below(3);  // 0: MPP, 1: ancilla-based (Z-type part only uses CX, general via H/S conjugation is skipped), 2: mixed MPP with measurement noise
     auto measure_round = [&](Circuit &c) -> size_t {
@@ -468,6 +479,10 @@ inline stim::Circuit gen_qec_circuit(Rng &rng, const QecOpts &o, Stats *st = nul
             std::vector<uint32_t> dt = {TARGET_RECORD_BIT | (uint32_t)(nstab - s), TARGET_RECORD_BIT | (uint32_t)(2 * nstab + heralds_per_round - s)};
             b.safe_append_u("DETECTOR", dt, rng.chance(0.5) ? std::vector<double>{(double)s, 0.0} : std::vector<double>{});
         }
+        // the herald results of a multi-target instruction, one detector each (noiselessly 0)
+        if (heralds_per_round > 1)
+            for (size_t j = 0; j < heralds_per_round; j++)
+                if (hside.chance(0.7)) b.safe_append_u("DETECTOR", {TARGET_RECORD_BIT | (uint32_t)(nstab + heralds_per_round - j)});
         if (rng.chance(0.3)) b.safe_append_u("SHIFT_COORDS", {}, {0.0, 1.0});
     };
     if (o.use_repeat && !with_gates && rng.chance(0.5) && rounds >= 2) {
